@@ -45,6 +45,7 @@ def check_C03(ctx):
     b = ctx.build('default')
     funs = 'mpz_add:mpz_sub:mpz_add_ui:mpz_sub_ui:mpz_ui_sub:mpz_neg:mpz_abs:mpz_mul_2exp:mpz_set:mpz_swap'
     ctx.validate(ctx.run_driver(b, 'alias', shards=8, extra='funs=' + funs, tier='thorough', timeout=600))     # every alias partition x exact/generous allocation
+    ctx.validate(ctx.run_driver(b, 'corners_all', shards=8, extra='funs=' + funs, timeout=900))      # the same functions on every corner-alphabet operand
     ctx.validate(ctx.run_driver(b, 'corners_z', shards=16, extra='funs=mpz_add:mpz_sub:mpz_cmp', timeout=900))       # every pair of corner-alphabet operands
     trace_drivers(ctx, [('c03_mpn', 16, 600), ('c03_mpz', 8, 600), ('c14_kern', 16, 600)], pure_drivers=['c03_mpn', 'c03_mpz'])      # c14_kern: the composite add/sub kernels the property is anchored in (addadd, addsub, subadd, sumdiff, nsumdiff, add/sub_err)
     return ctx.finish('model_checking',
@@ -223,6 +224,7 @@ def check_C05(ctx):
     ctx.model_must_hold(r, what='(mpz_and under every alias pattern)')
     b = ctx.build('default')
     paths = ctx.run_driver(b, 'alias', shards=16, timeout=1200)
+    paths += ctx.run_driver(b, 'corners_all', shards=16, timeout=1200)      # every mpz function on every corner-alphabet operand
     paths += ctx.run_driver(b, 'alias_qf', shards=8, timeout=1200)          # every mpq and mpf function, same enumeration
     ctx.validate(paths)
     pp = ctx.run_driver(b, 'alias', shards=1, extra='pure,funs=mpz_add:mpz_sub:mpz_mul:mpz_tdiv_qr:mpz_and:mpz_ior:mpz_gcd:mpz_addmul:mpz_neg:mpz_mul_2exp:mpz_fdiv_q:mpz_cdiv_r', timeout=300)
@@ -248,6 +250,7 @@ def check_C04(ctx):
     b = ctx.build('default')
     paths = ctx.run_driver(b, 'hist', shards=16, timeout=1200)
     paths += ctx.run_driver(b, 'alias', shards=16, timeout=1200)
+    paths += ctx.run_driver(b, 'corners_all', shards=16, timeout=1200)      # every mpz function on every corner-alphabet operand, destinations exactly allocated
     # rationals, floats, random states, strings and streams (valid and invalid input) under the same heap accounting
     # the bit, add/sub, root and combinatorial drivers pre-shrink every destination to the smallest legal allocation: each call must size its result itself
     for d, shards in [('c10_mpz', 4), ('c03_mpz', 4), ('c09_mpz', 4), ('c16_comb', 2), ('hist_qf', 8), ('c04_limbs', 8), ('c12', 4), ('c13', 4), ('c13s', 4), ('c19_hist', 4), ('c06_misc', 2), ('c06_mpz', 4), ('c17_stream', 8), ('c18_misc', 2)]:
@@ -309,6 +312,7 @@ def check_C07(ctx):
     b = ctx.build('default')
     funs = 'mpz_gcd:mpz_gcdext:mpz_lcm:mpz_invert:mpz_jacobi:mpz_kronecker:mpz_gcd_ui:mpz_lcm_ui:mpz_kronecker_si:mpz_kronecker_ui:mpz_si_kronecker:mpz_ui_kronecker:mpz_legendre'
     ctx.validate(ctx.run_driver(b, 'alias', shards=8, extra='funs=' + funs, tier='thorough', timeout=900))
+    ctx.validate(ctx.run_driver(b, 'corners_all', shards=8, extra='funs=' + funs, timeout=900))      # the same functions on every corner-alphabet operand
     ctx.validate(ctx.run_driver(b, 'corners_z', shards=16, extra='funs=mpz_gcd:mpz_lcm', timeout=900))
     trace_drivers(ctx, [('c07_mpz', 16, 1500), ('c07_mpn', 8, 900)], pure_drivers=['c07_mpz'])
     return ctx.finish('model_checking',
@@ -326,6 +330,7 @@ def check_C08(ctx):
     ctx.model_must_hold(r, what='(case analysis of mpz_powm: zero/negative exponent, even modulus recombination, negative base)')
     b = ctx.build('default')
     ctx.validate(ctx.run_driver(b, 'alias', shards=8, extra='funs=mpz_powm:mpz_powm_ui:mpz_pow_ui:mpz_ui_pow_ui', tier='thorough', timeout=900))
+    ctx.validate(ctx.run_driver(b, 'corners_all', shards=8, extra='funs=mpz_powm:mpz_powm_ui:mpz_pow_ui:mpz_ui_pow_ui', timeout=900))      # the same functions on every corner-alphabet operand
     trace_drivers(ctx, [('c08_powm', 16, 1500), ('c08_pow', 4, 600), ('c08_e1', 4, 600), ('k1_redc', 8, 900), ('k1_inv', 4, 900), ('k1_pow', 8, 900)], pure_drivers=['c08_pow', 'c08_e1', 'k1_redc'])
     return ctx.finish('model_checking',
         rule='R2: PowmEven = every (b,e,m) in range through the transcribed case analysis at a 2-bit limb. R3/R1: mpz_powm/powm_ui for moduli odd / even with 2-adic valuation 1,63..65,128+ / '
@@ -341,6 +346,7 @@ def check_C09(ctx):
     ctx.model_must_hold(r, what='(root / perfect power contracts = brute force definitions)')
     b = ctx.build('default')
     ctx.validate(ctx.run_driver(b, 'alias', shards=8, extra='funs=mpz_sqrt:mpz_sqrtrem:mpz_root:mpz_nthroot:mpz_rootrem:mpz_perfect_square_p:mpz_perfect_power_p', tier='thorough', timeout=900))
+    ctx.validate(ctx.run_driver(b, 'corners_all', shards=8, extra='funs=mpz_sqrt:mpz_sqrtrem:mpz_root:mpz_nthroot:mpz_rootrem:mpz_perfect_square_p:mpz_perfect_power_p', timeout=900))      # the same functions on every corner-alphabet operand
     trace_drivers(ctx, [('c09_mpz', 16, 1500), ('c09_mpn', 8, 900), ('k5_root', 8, 900)], pure_drivers=['c09_mpn', 'k5_root'])      # k5_root: mpn_rootrem / mpn_rootrem_basecase called directly (roots B^k-1, powers of two, index above the bit length)
     return ctx.finish('model_checking',
         rule='R2: RootContract checks the root and perfect-power predicates of the specification against brute force for every |u|<=M. R3/R1: sqrt/sqrtrem/root/nthroot/rootrem/'
@@ -419,6 +425,7 @@ def check_C11(ctx):
     b = ctx.build('default')
     funs = 'mpz_cmp:mpz_cmpabs:mpz_cmp_ui:mpz_cmp_si:mpz_cmp_d:mpz_cmpabs_d:mpz_cmpabs_ui:mpz_set_ui:mpz_set_si:mpz_set_d:mpz_get_ui:mpz_get_si:mpz_get_d:mpz_get_d_2exp:mpz_fits_slong_p:mpz_fits_ulong_p:mpz_fits_sint_p:mpz_fits_uint_p:mpz_fits_sshort_p:mpz_fits_ushort_p:mpz_sgn'
     ctx.validate(ctx.run_driver(b, 'alias', shards=8, extra='funs=' + funs, tier='thorough', timeout=900))
+    ctx.validate(ctx.run_driver(b, 'corners_all', shards=8, extra='funs=' + funs, timeout=900))      # the same functions on every corner-alphabet operand
     trace_drivers(ctx, [('c11', 16, 1500)], pure_drivers=['c11'])
     return ctx.finish('model_checking',
         rule='R2: FitsGet = every integer |z| < 2^(2W+1) through the transcribed fits/get/cmp_si code with W-bit limbs and longs. R3/R1: every get/set/fits/cmp function of mpz, mpq, mpf at '
@@ -464,6 +471,7 @@ def check_C16(ctx):
     ctx.validate(paths)
     funs = 'mpz_fac_ui:mpz_2fac_ui:mpz_mfac_uiui:mpz_primorial_ui:mpz_bin_ui:mpz_bin_uiui:mpz_fib_ui:mpz_fib2_ui:mpz_lucnum_ui:mpz_lucnum2_ui:mpz_remove'
     ctx.validate(ctx.run_driver(b, 'alias', shards=8, extra='funs=' + funs, tier='thorough', timeout=900))
+    ctx.validate(ctx.run_driver(b, 'corners_all', shards=8, extra='funs=' + funs, timeout=900))      # the same functions on every corner-alphabet operand
     trace_drivers(ctx, [('c16_comb', 16, 1500), ('c16_bin', 16, 1500), ('c16_prime', 16, 1500), ('k5_comb', 8, 900), ('k5_prime', 8, 900), ('c16_psp', 16, 1200)], pure_drivers=['c16_comb', 'c16_bin', 'k5_comb'])
     # k5_*: the internal helpers called directly: mpn_fib2_ui, mpz_oddfac_1 (both flags), mpz_prodlimbs, gmp_primesieve (whole bit array), gmp_nextprime (sequence), mpz_trial_division
     return ctx.finish('model_checking',
